@@ -1085,10 +1085,20 @@ pub fn zoned(s: &str, zone_offset_s: &dyn Fn(&str) -> Option<i64>, opts: Opts) -
         return Ref::unjudged(UNJ_U2212);
     }
     let Some(iso) = parse_date_time(s, opts) else { return Ref::reject() };
-    zoned_from_iso(&iso, zone_offset_s, opts)
+    zoned_from_iso(&iso, zone_offset_s, opts, false)
 }
 
-fn zoned_from_iso(iso: &Iso, zone_offset_s: &dyn Fn(&str) -> Option<i64>, opts: Opts) -> Ref {
+/// the same grammar read with offset option "use": the instant is the local date-time minus the *written*
+/// offset (or UTC for `Z`), whatever the zone's own offset is - the value the grammar assigns to the offset
+pub fn zoned_use(s: &str, zone_offset_s: &dyn Fn(&str) -> Option<i64>, opts: Opts) -> Ref {
+    if has_u2212(s) {
+        return Ref::unjudged(UNJ_U2212);
+    }
+    let Some(iso) = parse_date_time(s, opts) else { return Ref::reject() };
+    zoned_from_iso(&iso, zone_offset_s, opts, true)
+}
+
+fn zoned_from_iso(iso: &Iso, zone_offset_s: &dyn Fn(&str) -> Option<i64>, opts: Opts, use_offset: bool) -> Ref {
     let labels = iso.labels.clone();
     let Some((_, tz)) = iso.zone.clone() else { return Ref { verdict: Verdict::Reject, labels } };
     let cal = cal_or_return!(iso, labels);
@@ -1126,10 +1136,18 @@ fn zoned_from_iso(iso: &Iso, zone_offset_s: &dyn Fn(&str) -> Option<i64>, opts: 
             } else {
                 o.ns()
             };
-            if written != zone_s as i128 * 1_000_000_000 {
-                return Ref { verdict: Verdict::Reject, labels };
+            if use_offset {
+                let v = local - written;
+                if !instant_in_range(v) {
+                    return Ref { verdict: Verdict::Reject, labels };
+                }
+                Some(v)
+            } else {
+                if written != zone_s as i128 * 1_000_000_000 {
+                    return Ref { verdict: Verdict::Reject, labels };
+                }
+                None
             }
-            None
         }
     };
     Ref { verdict: Verdict::Accept(Value::Zoned { ns, tz, cal: cal.into() }), labels }
@@ -1145,7 +1163,7 @@ pub fn relative_to(s: &str, zone_offset_s: &dyn Fn(&str) -> Option<i64>, opts: O
         if opts.rx & RX_RELTO_Z != 0 && iso.offset == Some(Off::Z) {
             return Ref { verdict: Verdict::Reject, labels: iso.labels.clone() };
         }
-        let mut r = zoned_from_iso(&iso, zone_offset_s, opts);
+        let mut r = zoned_from_iso(&iso, zone_offset_s, opts, false);
         r.labels.push("relative-to-zoned");
         return r;
     }
